@@ -32,7 +32,7 @@ def sepOf (acc : String) : String := if acc.isEmpty || acc.back == '{' then "" e
 def varText (l : LOp) (canon : Nat) (changes : Nat → String) : String :=
   s!"V({l.label},{canon},{l.tail},{changes l.sig})"
 
-def walkB (b : Builder) (sl : Array String) (vl : Array LOp) (changes : Nat → String) :
+def walkB (b : Builder) (sl : Array String) (vl : Array LOp) (vtext : LOp → Nat → String) :
     Nat → List ItemId → WSt → WSt
   | 0, _, s => s
   | _, [], s => s
@@ -40,16 +40,16 @@ def walkB (b : Builder) (sl : Array String) (vl : Array LOp) (changes : Nat → 
     let sep := sepOf s.acc
     match it with
     | .scope i =>
-      let inner := walkB b sl vl changes fuel (itemsOf b (b.scopes.getD i default).child)
+      let inner := walkB b sl vl vtext fuel (itemsOf b (b.scopes.getD i default).child)
         { s with acc := s.acc ++ sep ++ s!"S({sl.getD i "?"})" ++ "{" }
-      walkB b sl vl changes fuel rest { inner with acc := inner.acc ++ "}" }
+      walkB b sl vl vtext fuel rest { inner with acc := inner.acc ++ "}" }
     | .var i =>
       let l := vl.getD i default
       let (c, seen) := canonOf s.seen l.sig
-      walkB b sl vl changes fuel rest { acc := s.acc ++ sep ++ varText l c changes, seen := seen }
+      walkB b sl vl vtext fuel rest { acc := s.acc ++ sep ++ vtext l c, seen := seen }
 
 /-- via the pointer-level builder; `none` = the builder panics (pop of an empty stack) -/
-def treeB (ops : List LOp) (changes : Nat → String) : Option String :=
+def treeBWith (ops : List LOp) (vtext : LOp → Nat → String) : Option String :=
   let step := fun (acc : Option (Builder × Array String × Array LOp)) (o : LOp) =>
     acc.bind fun (b, sl, vl) =>
       match Hier.step b o.op with
@@ -61,9 +61,9 @@ def treeB (ops : List LOp) (changes : Nat → String) : Option String :=
         | .pop => some (b', sl, vl)
   match ops.foldl step (some ({}, #[], #[])) with
   | none => none
-  | some (b, sl, vl) => some (walkB b sl vl changes (2 * nodeCount b + 2) (itemsOf b b.firstItem) {}).acc
+  | some (b, sl, vl) => some (walkB b sl vl vtext (2 * nodeCount b + 2) (itemsOf b b.firstItem) {}).acc
 
-def walkS (nodes : List FNode) (sl : Array String) (vl : Array LOp) (changes : Nat → String) :
+def walkS (nodes : List FNode) (sl : Array String) (vl : Array LOp) (vtext : LOp → Nat → String) :
     Nat → List Nat → WSt → WSt
   | 0, _, s => s
   | _, [], s => s
@@ -71,16 +71,16 @@ def walkS (nodes : List FNode) (sl : Array String) (vl : Array LOp) (changes : N
     let sep := sepOf s.acc
     let n := nodes.getD i default
     if n.isScope then
-      let inner := walkS nodes sl vl changes fuel (childrenOf nodes (some i))
+      let inner := walkS nodes sl vl vtext fuel (childrenOf nodes (some i))
         { s with acc := s.acc ++ sep ++ s!"S({sl.getD (rankOf nodes i) "?"})" ++ "{" }
-      walkS nodes sl vl changes fuel rest { inner with acc := inner.acc ++ "}" }
+      walkS nodes sl vl vtext fuel rest { inner with acc := inner.acc ++ "}" }
     else
       let l := vl.getD (rankOf nodes i) default
       let (c, seen) := canonOf s.seen l.sig
-      walkS nodes sl vl changes fuel rest { acc := s.acc ++ sep ++ varText l c changes, seen := seen }
+      walkS nodes sl vl vtext fuel rest { acc := s.acc ++ sep ++ vtext l c, seen := seen }
 
 /-- via the abstract specification of C08 -/
-def treeS (ops : List LOp) (changes : Nat → String) : Option String :=
+def treeSWith (ops : List LOp) (vtext : LOp → Nat → String) : Option String :=
   let step := fun (acc : Option (SpecSt × Array String × Array LOp)) (o : LOp) =>
     acc.bind fun (s, sl, vl) =>
       match specStep s o.op with
@@ -92,6 +92,9 @@ def treeS (ops : List LOp) (changes : Nat → String) : Option String :=
         | .pop => some (s', sl, vl)
   match ops.foldl step (some ({}, #[], #[])) with
   | none => none
-  | some (s, sl, vl) => some (walkS s.nodes sl vl changes (2 * s.nodes.length + 2) (childrenOf s.nodes none) {}).acc
+  | some (s, sl, vl) => some (walkS s.nodes sl vl vtext (2 * s.nodes.length + 2) (childrenOf s.nodes none) {}).acc
+
+def treeB (ops : List LOp) (changes : Nat → String) : Option String := treeBWith ops fun l c => varText l c changes
+def treeS (ops : List LOp) (changes : Nat → String) : Option String := treeSWith ops fun l c => varText l c changes
 
 end Wellen.Tree
